@@ -2307,16 +2307,27 @@ ws_dialer_free(void *arg)
 static void
 ws_dial_cancel(nni_aio *aio, void *arg, nng_err rv)
 {
-	nni_ws *ws = arg;
+	nni_ws_dialer *d = arg;
+	nni_ws        *ws;
 
-	nni_mtx_lock(&ws->mtx);
-	if (aio == ws->useraio) {
-		nni_aio_abort(&ws->connaio, rv);
-		nni_aio_abort(&ws->httpaio, rv);
-		ws->useraio = NULL;
-		nni_aio_finish_error(aio, rv);
+	// The websocket serving this dial is discarded as soon as its
+	// negotiation ends, possibly while we are being called, so we
+	// look it up among the pending ones (which stay valid while we
+	// hold the dialer lock) instead of keeping a pointer to it.
+	nni_mtx_lock(&d->mtx);
+	NNI_LIST_FOREACH (&d->wspend, ws) {
+		nni_mtx_lock(&ws->mtx);
+		if (aio == ws->useraio) {
+			nni_aio_abort(&ws->connaio, rv);
+			nni_aio_abort(&ws->httpaio, rv);
+			ws->useraio = NULL;
+			nni_aio_finish_error(aio, rv);
+			nni_mtx_unlock(&ws->mtx);
+			break;
+		}
+		nni_mtx_unlock(&ws->mtx);
 	}
-	nni_mtx_unlock(&ws->mtx);
+	nni_mtx_unlock(&d->mtx);
 }
 
 static void
@@ -2338,7 +2349,7 @@ ws_dialer_dial(void *arg, nni_aio *aio)
 		ws_reap(ws);
 		return;
 	}
-	if (!nni_aio_start(aio, ws_dial_cancel, ws)) {
+	if (!nni_aio_start(aio, ws_dial_cancel, d)) {
 		nni_mtx_unlock(&d->mtx);
 		ws_reap(ws);
 		return;
